@@ -8,9 +8,9 @@
  * Oracles: sanitizers; TLS_CONNECT lives in an exactly sized heap block; after the run the length fields of the
  * connection must be within their arrays and the configured certificates / CA must be unchanged (ASan cannot
  * see an overflow that stays inside TLS_CONNECT).
- * FZ_SKIP: certs2048 (Certificate messages whose DER total exceeds TLS_MAX_CERTIFICATES_SIZE), sh13exts (TLS 1.3
- *          ServerHello whose extension list is not well-formed), ch12noexts (TLS 1.2 ClientHello without extensions),
- *          chexts (ClientHello with more extensions than the 512-byte reply buffer holds), oid33, aia.
+ * FZ_SKIP: certs2048 (Certificate messages whose DER total exceeds TLS_MAX_CERTIFICATES_SIZE), ks13 (TLS 1.3
+ *          hello without a key_share extension), ch12noexts (TLS 1.2 ClientHello without extensions),
+ *          chexts (ClientHello with more extensions than the 512-byte reply buffer holds), oid33, aia, iap.
  */
 #ifndef FZ_PEER_PROTO
 #define FZ_PEER_PROTO 2
@@ -134,12 +134,11 @@ static int hello_exts(const uint8_t *b, size_t n, int is_client_hello, const uin
 
 static int stream_excluded(const uint8_t *s, size_t n)
 {
-	int sk_certs = fz_skip("certs2048"), sk_sh13 = fz_skip("sh13exts"), sk_ch12 = fz_skip("ch12noexts"), sk_chx = fz_skip("chexts");
+	int sk_certs = fz_skip("certs2048"), sk_sh13 = fz_skip("ks13"), sk_ch12 = fz_skip("ch12noexts"), sk_chx = fz_skip("chexts");
 	size_t off = 0;
 	int first = 1;
 	(void)first;
-	if (fz_skip("oid33") && fz_long_oid(s, n)) return 1;
-	if (fz_skip("aia") && fz_aia_unknown(s, n, 0)) return 1;
+	if (fz_skip_x509_shapes(s, n, 0)) return 1;
 	if (!sk_certs && !sk_sh13 && !sk_ch12 && !sk_chx) return 0;
 	while (off + 5 <= n) {
 		size_t l = 5 + (((size_t)s[off + 3] << 8) | s[off + 4]);
@@ -150,9 +149,20 @@ static int stream_excluded(const uint8_t *s, size_t n)
 		if (sk_certs && hs_body(s + off, l, TLS_handshake_certificate, &b, &bl)
 			&& cert_msg_total(b, bl) > TLS_MAX_CERTIFICATES_SIZE)
 			return 1;
-#if FZ_PEER_PROTO == 3 && FZ_PEER_CLIENT
-		if (sk_sh13 && first && hs_body(s + off, l, TLS_handshake_server_hello, &b, &bl)) {
-			if (hello_exts(b, bl, 0, &e, &el, &present) && present && !exts_wellformed(e, el)) return 1;
+#if FZ_PEER_PROTO == 3
+		/* ks13: a TLS 1.3 hello that carries no key_share extension (the endpoint then uses a point it never set) */
+		if (sk_sh13 && first && hs_body(s + off, l, FZ_PEER_CLIENT ? TLS_handshake_server_hello : TLS_handshake_client_hello, &b, &bl)) {
+			if (hello_exts(b, bl, !FZ_PEER_CLIENT, &e, &el, &present)) {
+				int has_ks = 0;
+				const uint8_t *q = e; size_t ql = present ? el : 0;
+				while (ql >= 4) {
+					size_t xl = ((size_t)q[2] << 8) | q[3];
+					if (q[0] == 0 && q[1] == 51) has_ks = 1;
+					if (xl > ql - 4) break;
+					q += 4 + xl; ql -= 4 + xl;
+				}
+				if (!has_ks) return 1;
+			}
 		}
 #endif
 #if FZ_PEER_PROTO == 2 && !FZ_PEER_CLIENT
